@@ -326,7 +326,7 @@ def main():
         vec.append((k, blocks, want))
     rows = '\n'.join('{%s,%s,%s},' % (go_bytes(k), go_bytes(b), go_bytes(w)) for k, b, w in vec)
     src = '''package sm4
-import ("testing"; "bytes")
+import ("testing"; "bytes"; "crypto/cipher")
 func TestVerifReplay(t *testing.T) {
 	cases := []struct{ key, in, want []byte }{
 %s
@@ -359,6 +359,24 @@ func TestVerifReplay(t *testing.T) {
 				if !bytes.Equal(o, c.want[:16*n]) { t.Fatalf("case %%d: kernel X%%d differs from the standard", i, n) }
 			}
 			o := make([]byte, 32); encryptX2(&c2, o, c.in[:32]); if !bytes.Equal(o, c.want[:32]) { t.Fatalf("portable X2") }
+		}
+	}
+	// blocks at every offset inside a larger buffer (no alignment may be assumed for dst or src), both cipher types
+	{
+		c0 := cases[0]
+		a, _ := NewCipher(c0.key); g, _ := newCipherGeneric(c0.key)
+		for _, bc := range []cipher.Block{a, g} {
+			for off := 0; off < 17; off++ {
+				buf := make([]byte, 80); in := make([]byte, 80)
+				copy(in[off:], c0.in[:16])
+				func() {
+					defer func() { if x := recover(); x != nil { t.Fatalf("Encrypt with dst/src at offset %%d of their buffers panics: %%v", off, x) } }()
+					bc.Encrypt(buf[off:off+16], in[off:off+16])
+					if !bytes.Equal(buf[off:off+16], c0.want[:16]) { t.Fatalf("Encrypt at buffer offset %%d differs from the standard", off) }
+					bc.Decrypt(buf[off:off+16], buf[off:off+16])
+					if !bytes.Equal(buf[off:off+16], c0.in[:16]) { t.Fatalf("in-place Decrypt at buffer offset %%d differs", off) }
+				}()
+			}
 		}
 	}
 	// the fallback dispatch (CPU without the accelerated instructions): NewCipher must still be SM4, in both directions
